@@ -564,7 +564,7 @@ def gen_case(rng, tier, k):
                 ["state", "state", "read", "fn", "call", "fail", "multifail",
                  "syntax", "loopabort", "require", "require", "require",
                  "moduse", "moduse", "sentinel", "failstorm", "appear",
-                 "runfile", "bindnative"])
+                 "runfile", "bindnative", "bigarg"])
             if kind == "appear":
                 # a module that was missing appears in the store (or a
                 # present one disappears) between two commands
@@ -672,6 +672,24 @@ def gen_case(rng, tier, k):
                 stmts.append(["runf", f"/sim/scripts/s{rng.randrange(2)}.ckl"])
                 if rng.random() < 0.5:
                     stmts.append(gen_read(scope))
+            elif kind == "bigarg":
+                # a failure leaves a call whose argument is a large
+                # collection (sizes around the 16/17-element mark at which
+                # stack-trace lines abbreviate their arguments); handled
+                # once, then not handled
+                nbig = rng.choice([15, 16, 17, 18, 40])
+                shape = rng.choice(["set", "l", "map", "set"])
+                if shape == "map":
+                    big = ["map", [[["s", f"k{j:02d}"], j]
+                                   for j in range(nbig)]]
+                else:
+                    big = [shape, [j if rng.random() < 0.7 else
+                                   ["s", f"e{j:02d}"] for j in range(nbig)]]
+                stmts.append(["deffn", "f_big", ["p"],
+                              [gen_fail_stmt(), ["ret", 0]]])
+                stmts.append(["blk", [["expr", ["call", "f_big", [big]]]],
+                              [[None, [["mark", g.fresh("bg")]]]], None])
+                stmts.append(["expr", ["call", "f_big", [big]]])
             elif kind == "failstorm":
                 # many failures unwinding through nested function calls in
                 # one command, each handled; afterwards calls still work
